@@ -559,7 +559,7 @@ func TestVerif_C06_Schedules(t *testing.T) {
 				alsoCkpt = true
 			}
 			if alsoCkpt {
-				if !needFull && rapid.IntRange(0, 39).Draw(rt, "full-instead") == 0 {
+				if !needFull && rapid.IntRange(0, 39).Draw(rt, "full-instead") == 17 {
 					needFull = true
 				}
 				attempt(false)
